@@ -214,20 +214,11 @@ impl Channel {
             let dur = metrics.calculate_duration(&msg, rng_ref);
             let busy = metrics.calculate_busy(&msg);
 
-            if busy != Duration::ZERO {
-                let transmissin_finish = SimTime::now() + busy;
+            drop(chan);
 
-                drop(chan);
-                self.set_busy_until(transmissin_finish);
-
-                sink.add(
-                    NetEvents::ChannelUnbusyNotif(ChannelUnbusyNotif {
-                        channel: self.clone(),
-                    }),
-                    transmissin_finish,
-                );
-            }
-
+            // Schedule the exit of the message before the unbusy notification,
+            // so that messages dequeued by the notification can never
+            // overtake the message that was transmitted before them.
             let next_event_time = SimTime::now() + dur;
 
             sink.add(
@@ -237,6 +228,19 @@ impl Channel {
                 }),
                 next_event_time,
             );
+
+            if busy != Duration::ZERO {
+                let transmissin_finish = SimTime::now() + busy;
+
+                self.set_busy_until(transmissin_finish);
+
+                sink.add(
+                    NetEvents::ChannelUnbusyNotif(ChannelUnbusyNotif {
+                        channel: self.clone(),
+                    }),
+                    transmissin_finish,
+                );
+            }
 
             // must break iteration,
             // but not perform on-module handling
@@ -250,9 +254,20 @@ impl Channel {
         chan.busy = false;
         chan.transmission_finish_time = SimTime::ZERO;
 
-        if let Some((msg, next_gate)) = chan.buffer.dequeue() {
+        drop(chan);
+
+        // A transmission time may round to zero, in which case no further
+        // unbusy notification is scheduled: keep draining while idle.
+        loop {
+            let mut chan = self.inner.write().unwrap();
+            if chan.busy {
+                break;
+            }
+            let Some((msg, next_gate)) = chan.buffer.dequeue() else {
+                break;
+            };
             drop(chan);
-            self.send_message(msg, next_gate, sink);
+            self.clone().send_message(msg, next_gate, sink);
         }
     }
 }
